@@ -76,6 +76,11 @@ def gen_cases(tier, seed):
         compressed = rng.random() < 0.5
         coarse = intuniv.rng_for(seed, "C15/coarse", i).random() < 0.35
         pool = _pool(rng, compressed, coarse)
+        mixed = compressed and not coarse and intuniv.rng_for(seed, "C15/mixed", i).random() < 0.5
+        for d in pool:
+            d["mixed"] = mixed  # compressed classes and atoms that opt out of compression in one database
+            if mixed and d.get("right"):
+                d["right"] = None
         ops = []
         for _ in range(rng.randint(10, 200)):
             r = rng.random()
@@ -100,7 +105,7 @@ def gen_cases(tier, seed):
                 ops.append(["add", j])
             else:
                 ops.append(["iter"])
-        yield {"id": i, "compressed": compressed, "coarse": coarse, "pool": pool, "ops": ops}
+        yield {"id": i, "compressed": compressed, "coarse": coarse, "mixed": mixed, "pool": pool, "ops": ops}
 
 
 def run_case(case):
@@ -112,6 +117,9 @@ def run_case(case):
     if case.get("coarse"):
         ctype = words.WCBH if case["compressed"] else words.WCH
         cx.count("c15.histories_with_colliding_hashes")
+    if case.get("mixed"):
+        ctype = words.WCM
+        cx.count("c15.histories_with_mixed_compression")
     db = ClassDB(ctype)
     model = m_classdb.model_of(db)
     rng = intuniv.rng_for("c15run", case["id"])
